@@ -15,9 +15,9 @@ Definition fp2 (key dkey : Z) (stat_ok : Z -> Prop) (s s' : hstate) : Prop :=
   /\ (forall ref, stat_ok ref -> dget ref (c_stat (h_corr s')) = dget ref (c_stat (h_corr s)))
   /\ (forall k', k' <> dkey -> dget k' (h_deliv s') = dget k' (h_deliv s)).
 
-Lemma put_fp2 s m dkey : fp2 (sm_seq m) dkey (fun ref => ref <> fst (fst (sm_sar m))) s (fst (hstep s (HPut m))).
+Lemma put_fp2 s m dkey : fp2 (sm_seq m) dkey (fun key => key <> put_key (h_corr s) m) s (fst (hstep s (HPut m))).
 Proof.
-  destruct (put_footprint s m) as (F1 & F2 & F3 & _). split; [exact F1|]. split; [exact F2|]. split; [exact F3|].
+  destruct (put_footprint s m) as [(F1 & F2 & F3 & _) _]. split; [exact F1|]. split; [exact F2|]. split; [exact F3|].
   intros k' _. reflexivity.
 Qed.
 
@@ -108,17 +108,20 @@ Lemma GI_frame r log k sq md uid s s' ph lrc :
   GI r log k sq md uid s ph lrc ->
   (forall i, (i < k)%nat -> dget (sq i) (c_store (h_corr s')) = dget (sq i) (c_store (h_corr s))) ->
   (forall i, (i < k)%nat -> dget (sq i) (c_seg (h_corr s')) = dget (sq i) (c_seg (h_corr s))) ->
-  dget r (c_stat (h_corr s')) = dget r (c_stat (h_corr s)) ->
+  dget (HandlersProofs.K r sq) (c_stat (h_corr s')) = dget (HandlersProofs.K r sq) (c_stat (h_corr s)) ->
   (forall i, (i < k)%nat -> dget (md i) (h_deliv s') = dget (md i) (h_deliv s)) ->
+  (ph 0%nat <> PNot -> (exists j, (j < k)%nat /\ ph j = PNot) -> dget r (c_cur (h_corr s')) = dget r (c_cur (h_corr s))) ->
   NoDup (dkeys (c_seg (h_corr s'))) -> NoDup (dkeys (c_stat (h_corr s'))) -> NoDup (dkeys (h_deliv s')) -> NoDup (dkeys (c_store (h_corr s'))) ->
   GI r log k sq md uid s' ph lrc.
 Proof.
-  intros (Ha & Hb & Hc & Hd & He & Hl & N1 & N2 & N3 & N4) F1 F2 F3 F4 M1 M2 M3 M4. unfold GI.
-  split; [intros i Hi; rewrite (F1 i Hi); exact (Ha i Hi)|].
-  split; [intros i Hi; rewrite (F2 i Hi); exact (Hb i Hi)|].
-  split; [rewrite F3; exact Hc|].
-  split; [intros i Hi; rewrite (F4 i Hi); exact (Hd i Hi)|].
-  split; [exact He|]. split; [exact Hl|]. split; [exact M1|]. split; [exact M2|]. split; [exact M3|exact M4].
+  intros [(Ha & Hb & Hc & Hd & He & Hl & N1 & N2 & N3 & N4) Hcur] F1 F2 F3 F4 F5 M1 M2 M3 M4. split.
+  - unfold GI0.
+    split; [intros i Hi; rewrite (F1 i Hi); exact (Ha i Hi)|].
+    split; [intros i Hi; rewrite (F2 i Hi); exact (Hb i Hi)|].
+    split; [rewrite F3; exact Hc|].
+    split; [intros i Hi; rewrite (F4 i Hi); exact (Hd i Hi)|].
+    split; [exact He|]. split; [exact Hl|]. split; [exact M1|]. split; [exact M2|]. split; [exact M3|exact M4].
+  - intros H0 Hex. rewrite (F5 H0 Hex). exact (Hcur H0 Hex).
 Qed.
 
 (* ---------- one step of one message, with what the hook gets ---------- *)
@@ -152,24 +155,42 @@ Qed.
 
 (* what an enabled event of a message can touch, in terms of that message's own keys *)
 Lemma local_footprint r log k sq md uid s ph lrc g :
+  (2 <= k)%nat ->
   GI r log k sq md uid s ph lrc -> enabled k ph g ->
-  exists i, (i < k)%nat /\ fp2 (sq i) (md i) (fun ref => ref <> r) s (fst (hstep s (conc r log k sq md uid g))).
+  exists i, (i < k)%nat /\ fp2 (sq i) (md i) (fun key => key <> HandlersProofs.K r sq) s (fst (hstep s (conc r log k sq md uid g)))
+            /\ cur_foot (fun ref => match g with GPut _ => ref <> r | _ => True end) s (fst (hstep s (conc r log k sq md uid g))).
 Proof.
-  intros HG Hen. destruct g as [i|i u|i u e]; cbn [enabled] in Hen; cbn [conc].
-  - destruct Hen as (Hi & _). exists i. split; [exact Hi|].
-    pose proof (put_fp2 s (seg r log k sq uid i) (md i)) as F. unfold seg in F at 1 2. cbn [sm_seq sm_sar fst] in F. exact F.
+  intros Hk HG Hen. destruct g as [i|i u|i u e]; cbn [enabled] in Hen; cbn [conc].
+  - destruct Hen as (Hi & Hp & Hord). exists i. split; [exact Hi|].
+    pose proof (put_fp2 s (seg r log k sq uid i) (md i)) as F. unfold seg in F at 1. cbn [sm_seq] in F.
+    destruct (put_footprint s (seg r log k sq uid i)) as [_ C]. unfold seg in C at 1. cbn [sm_sar fst] in C. split; [|exact C].
+    assert (put_key (h_corr s) (seg r log k sq uid i) = HandlersProofs.K r sq) as Ek.
+    { unfold put_key, seg. cbn [sm_sar sm_seq]. destruct (Nat.eq_dec i 0) as [->|N0].
+      - change (1 <? Z.of_nat 0 + 1) with false. cbv iota. reflexivity.
+      - replace (1 <? Z.of_nat i + 1) with true by (symmetry; apply Z.ltb_lt; lia).
+        destruct HG as [(_ & _ & Hc & _) Hcur].
+        rewrite (Hcur (Hord N0) (ex_intro _ i (conj Hi Hp))).
+        assert (forallb (fun a => is_not (ph a)) (idx k) = false) as Fn.
+        { apply (forallb_idx_false k Hk _ 0%nat ltac:(lia)). specialize (Hord N0). destruct (ph 0%nat); try reflexivity. contradiction. }
+        assert (forallb (fun a => is_done (ph a)) (idx k) = false) as Fd by (apply (forallb_idx_false k Hk _ i Hi); rewrite Hp; reflexivity).
+        rewrite Fn, Fd in Hc. cbn [orb] in Hc. destruct Hc as (cell & -> & _). reflexivity. }
+    rewrite Ek in F. exact F.
   - destruct Hen as (Hi & Hp). exists i. split; [exact Hi|].
     pose proof (response_fp2 s (ok_resp sq i u) (md i)) as (F1 & F2 & F3 & F4). unfold ok_resp in F1, F2, F3. cbn [rs_seq] in F1, F2, F3.
-    destruct HG as (_ & Hb & _). specialize (Hb i Hi). rewrite Hp in Hb.
-    cbn [hstep]. split; [exact F1|]. split; [exact F2|]. split; [|exact F4].
-    intros ref Hne. apply F3. intros rf ss E. rewrite Hb in E. injection E as <- _. congruence.
+    destruct HG as [(_ & Hb & _) _]. specialize (Hb i Hi). rewrite Hp in Hb.
+    cbn [hstep]. split.
+    + split; [exact F1|]. split; [exact F2|]. split; [|exact F4].
+      intros ref Hne. apply F3. intros rf ss E. rewrite Hb in E. injection E as <- _. congruence.
+    + intros ref _. rewrite response_cur. reflexivity.
   - destruct Hen as (Hi & Hp & _). exists i. split; [exact Hi|].
-    destruct HG as (_ & Hb & _ & Hd & _). specialize (Hb i Hi). rewrite Hp in Hb. specialize (Hd i Hi). rewrite Hp in Hd.
+    destruct HG as [(_ & Hb & _ & Hd & _) _]. specialize (Hb i Hi). rewrite Hp in Hb. specialize (Hd i Hi). rewrite Hp in Hd.
     destruct Hd as (e0 & Hd & Hm).
     pose proof (receipt_fp2 s {| rc_uid := u; rc_id := md i; rc_err := e |} e0 Hd) as (F1 & F2 & F3 & F4).
     rewrite Hm in F1, F2, F3. unfold seg in F1, F2, F3. cbn [sm_seq rc_id] in F1, F2, F3, F4.
-    cbn [hstep]. split; [exact F1|]. split; [exact F2|]. split; [|exact F4].
-    intros ref Hne. apply F3. intros rf ss E. rewrite Hb in E. injection E as <- _. congruence.
+    cbn [hstep]. split.
+    + split; [exact F1|]. split; [exact F2|]. split; [|exact F4].
+      intros ref Hne. apply F3. intros rf ss E. rewrite Hb in E. injection E as <- _. congruence.
+    + intros ref _. rewrite receipt_cur. reflexivity.
 Qed.
 
 (* ---------- several messages ---------- *)
@@ -179,13 +200,12 @@ Section ConcurrentReceipts.
   Variable n : nat.
   Variable D : nat -> mdesc2.
   Hypothesis D_ok : forall j, (j < n)%nat ->
-    (2 <= m2_k (D j))%nat
+    (2 <= m2_k (D j))%nat /\ 0 <= m2_r (D j) < 65536
     /\ (forall a b, (a < m2_k (D j))%nat -> (b < m2_k (D j))%nat -> m2_sq (D j) a = m2_sq (D j) b -> a = b)
     /\ (forall a b, (a < m2_k (D j))%nat -> (b < m2_k (D j))%nat -> m2_md (D j) a = m2_md (D j) b -> a = b).
-  (* distinct references, sequence numbers and SMSC message ids among the outstanding messages *)
+  (* distinct sequence numbers and SMSC message ids among the outstanding messages; their references may coincide *)
   Hypothesis D_sep : forall i j, (i < n)%nat -> (j < n)%nat -> i <> j ->
-    m2_r (D i) <> m2_r (D j)
-    /\ (forall a b, (a < m2_k (D i))%nat -> (b < m2_k (D j))%nat -> m2_sq (D i) a <> m2_sq (D j) b)
+    (forall a b, (a < m2_k (D i))%nat -> (b < m2_k (D j))%nat -> m2_sq (D i) a <> m2_sq (D j) b)
     /\ (forall a b, (a < m2_k (D i))%nat -> (b < m2_k (D j))%nat -> m2_md (D i) a <> m2_md (D j) b).
 
   Definition GIj (j : nat) := GI (m2_r (D j)) (m2_log (D j)) (m2_k (D j)) (m2_sq (D j)) (m2_md (D j)) (m2_uid (D j)).
@@ -195,7 +215,16 @@ Section ConcurrentReceipts.
   Definition gev2 := (nat * HandlersProofs.gev)%type.
   Definition gconc2 (e : gev2) : hevent :=
     let d := D (fst e) in conc (m2_r d) (m2_log d) (m2_k d) (m2_sq d) (m2_md d) (m2_uid d) (snd e).
-  Definition genabled2 (PH : nat -> nat -> phase) (e : gev2) : Prop := (fst e < n)%nat /\ enabled (m2_k (D (fst e))) (PH (fst e)) (snd e).
+  (* message i is in the middle of storing its segments *)
+  Definition storing2 (PH : nat -> nat -> phase) (i : nat) : Prop :=
+    PH i 0%nat <> PNot /\ exists a, (a < m2_k (D i))%nat /\ PH i a = PNot.
+  (* the sender stores the segments of one message before it turns to the next with the same reference *)
+  Definition genabled2 (PH : nat -> nat -> phase) (e : gev2) : Prop :=
+    (fst e < n)%nat /\ enabled (m2_k (D (fst e))) (PH (fst e)) (snd e)
+    /\ match snd e with
+       | GPut _ => forall i, (i < n)%nat -> i <> fst e -> m2_r (D i) = m2_r (D (fst e)) -> ~ storing2 PH i
+       | _ => True
+       end.
   Definition gafter2 (PH : nat -> nat -> phase) (LRC : nat -> option (Z * Z)) (e : gev2) :=
     let j := fst e in (ConcurrentProofs.upd PH j (fst (after (PH j) (LRC j) (snd e))), ConcurrentProofs.upd LRC j (snd (after (PH j) (LRC j) (snd e)))).
   Definition gexpected2 (PH : nat -> nat -> phase) (LRC : nat -> option (Z * Z)) (e : gev2) : option (list hout) :=
@@ -209,23 +238,25 @@ Section ConcurrentReceipts.
     MI2 s PH LRC -> genabled2 PH e ->
     exists s' out, hstep s (gconc2 e) = (s', out) /\ agrees (gexpected2 PH LRC e) out /\ MI2 s' (fst (gafter2 PH LRC e)) (snd (gafter2 PH LRC e)).
   Proof.
-    intros HM (Hj & Hen). destruct e as [j g]. cbn [fst snd] in *.
-    destruct (D_ok j Hj) as (Hk & Hsq & Hmd). destruct (HM j Hj) as [HGj Hffj].
+    intros HM (Hj & Hen & Hdisc). destruct e as [j g]. cbn [fst snd] in *.
+    destruct (D_ok j Hj) as (Hk & Hrj & Hsq & Hmd). destruct (HM j Hj) as [HGj Hffj].
     destruct (local_step _ _ _ _ _ _ Hk Hsq Hmd s (PH j) (LRC j) g HGj Hffj Hen) as (s' & out & Hs & Hag & HG' & Hff').
-    destruct (local_footprint _ _ _ _ _ _ s (PH j) (LRC j) g HGj Hen) as (a & Ha & F1 & F2 & F3 & F4).
+    destruct (local_footprint _ _ _ _ _ _ s (PH j) (LRC j) g Hk HGj Hen) as (a & Ha & (F1 & F2 & F3 & F4) & F5).
     exists s', out. split; [exact Hs|]. split; [exact Hag|].
     unfold gafter2. cbn [fst snd]. intros i Hi. destruct (Nat.eq_dec i j) as [->|Hne].
     - unfold GIj. rewrite !ConcurrentProofs.upd_same. split; assumption.
     - unfold GIj. rewrite !ConcurrentProofs.upd_other by exact Hne.
       destruct (HM i Hi) as [HGi Hffi]. split; [|exact Hffi].
-      unfold gconc2 in Hs. cbn [fst snd] in Hs. rewrite Hs in F1, F2, F3, F4. cbn [fst] in F1, F2, F3, F4.
-      destruct (D_sep i j Hi Hj Hne) as (Hr & Hsqd & Hmdd).
-      destruct HG' as (_ & _ & _ & _ & _ & _ & N1 & N2 & N3 & N4).
+      unfold gconc2 in Hs. cbn [fst snd] in Hs. rewrite Hs in F1, F2, F3, F4, F5. cbn [fst] in F1, F2, F3, F4, F5.
+      destruct (D_sep i j Hi Hj Hne) as (Hsqd & Hmdd). destruct (D_ok i Hi) as (Hki & Hri & _).
+      destruct HG' as [(_ & _ & _ & _ & _ & _ & N1 & N2 & N3 & N4) _].
       apply (GI_frame _ _ _ _ _ _ s s' _ _ HGi).
       + intros b Hb. apply F1. apply Hsqd; assumption.
       + intros b Hb. apply F2. apply Hsqd; assumption.
-      + apply F3. exact Hr.
+      + apply F3. unfold HandlersProofs.K. apply skey_inj; [exact Hri|exact Hrj|]. apply Hsqd; lia.
       + intros b Hb. apply F4. apply Hmdd; assumption.
+      + intros H0 Hex. apply F5. destruct g as [x|x u|x u e]; try exact I.
+        intros Er. apply (Hdisc i Hi Hne Er). split; assumption.
       + exact N1.
       + exact N2.
       + exact N3.
@@ -255,7 +286,7 @@ Section ConcurrentReceipts.
     /\ pick2 j gs (gspec2 PH LRC gs) = spec_outs (m2_log (D j)) (m2_k (D j)) (PH j) (LRC j) (proj2 j gs).
   Proof.
     induction gs as [|[i g] t IH]; intros PH LRC Hv; [split; [exact I|reflexivity]|].
-    cbn [gvalid2] in Hv. destruct Hv as [(Hi & Hen) Hv]. cbn [fst snd] in Hi, Hen.
+    cbn [gvalid2] in Hv. destruct Hv as [(Hi & Hen & _) Hv]. cbn [fst snd] in Hi, Hen.
     specialize (IH _ _ Hv). unfold gafter2 in IH. cbn [fst snd] in IH.
     cbn [proj2 gspec2 pick2]. destruct (Nat.eqb_spec i j) as [->|Hne].
     - rewrite !ConcurrentProofs.upd_same in IH. destruct IH as [IH1 IH2]. cbn [valid spec_outs]. split; [split; assumption|].
